@@ -3,6 +3,7 @@ package main
 import (
 	"fmt"
 	"go/ast"
+	"go/constant"
 	"go/token"
 	"go/types"
 	"sort"
@@ -632,6 +633,8 @@ type validatorShape struct {
 	typ    *types.Named // its type
 	errFld *types.Var   // the latch, when it is a field of the visitor
 	cell   *ssa.Alloc   // the latch, when it is a local of the driver written by a callback
+	// the latch as a flag of the visitor plus the offending name, the error being made by the driver afterwards
+	flagFld, nameFld *types.Var
 }
 
 func discoverValidator(c *Ctx) *validatorShape {
@@ -653,9 +656,32 @@ func discoverValidator(c *Ctx) *validatorShape {
 	}
 	vsh.obj = mi.X
 	vsh.typ = namedOf(mi.X.Type())
+	dfi := factsOf(drv)
 	for _, r := range returnsOf(drv) {
 		if len(r.Results) != 1 {
 			continue
+		}
+		// an error made here from a name the visitor kept, under a flag of the visitor
+		res0 := r.Results[0]
+		if mi, isMI := res0.(*ssa.MakeInterface); isMI {
+			res0 = mi.X
+		}
+		if mk, isCall := res0.(*ssa.Call); isCall && len(mk.Call.Args) >= 1 {
+			if cal, _ := calleeOf(mk.Common()); cal != nil && isErrorCtor(cal) {
+				nf, nbase := loadedField(mk.Call.Args[0])
+				var ff *types.Var
+				dfi.HoldsWhere(r.Block(), func(f Fact) bool {
+					g, base := loadedField(f.V)
+					if f.Kind == "true" && f.Pol && g != nil && base == vsh.obj && isBoolType(g.Type()) {
+						ff = g
+						return true
+					}
+					return false
+				})
+				if nf != nil && nbase == vsh.obj && ff != nil {
+					vsh.flagFld, vsh.nameFld = ff, nf
+				}
+			}
 		}
 		if f, base := loadedField(r.Results[0]); f != nil && base == vsh.obj {
 			vsh.errFld = f
@@ -672,7 +698,7 @@ func discoverValidator(c *Ctx) *validatorShape {
 func ruleC20Validator(c *Ctx) {
 	p := c.P
 	vsh := discoverValidator(c)
-	if vsh.typ == nil || (vsh.errFld == nil && vsh.cell == nil) {
+	if vsh.typ == nil || (vsh.errFld == nil && vsh.cell == nil && vsh.flagFld == nil) {
 		// not recognisable by what the driver does: the names the rule was written against
 		vsh.typ = p.Named("boltz", "publicSymbolValidator")
 		vsh.errFld = p.Field("boltz", "publicSymbolValidator", "err")
@@ -688,6 +714,10 @@ func ruleC20Validator(c *Ctx) {
 	}
 	if vsh.errFld == nil && vsh.cell != nil {
 		ruleC20ValidatorCallback(c, vsh, p.SSAFunc(vs))
+		return
+	}
+	if vsh.errFld == nil && vsh.flagFld != nil {
+		ruleC20ValidatorFlag(c, vsh, p.SSAFunc(vs))
 		return
 	}
 	fn := p.SSAFunc(vs)
@@ -1282,4 +1312,133 @@ func childViaLocalCollection(v ssa.Value, recv ssa.Value, fld *types.Var) bool {
 		}
 	}
 	return false
+}
+
+// ruleC20ValidatorFlag: the validator keeps (offending name, found) instead of a ready-made error; the driver
+// makes the error afterwards.  Decided like the other shapes: VisitSymbol is run for (already found?) x (symbol
+// public?) and what it leaves in the two fields is compared with the latch's contract; the driver returns the
+// error made from the kept name exactly when the flag is set.
+func ruleC20ValidatorFlag(c *Ctx, vsh *validatorShape, fn *ssa.Function) {
+	p := c.P
+	c.Analysed(FnName(fn))
+	c.Analysed(FnName(vsh.drv))
+	st, _ := derefType(fn.Params[0].Type()).Underlying().(*types.Struct)
+	flagIdx, nameIdx := -1, -1
+	for i := 0; st != nil && i < st.NumFields(); i++ {
+		if sameVar(st.Field(i), vsh.flagFld) {
+			flagIdx = i
+		}
+		if sameVar(st.Field(i), vsh.nameFld) {
+			nameIdx = i
+		}
+	}
+	sym := ssa.Value(fn.Params[1])
+	isPublicTest := func(call *ssa.Call) bool {
+		args := call.Call.Args
+		return invokeNamed(call, "IsPublicSymbol") && len(args) > 0 && args[len(args)-1] == sym
+	}
+	decidedAll, good := flagIdx >= 0 && nameIdx >= 0, true
+	for _, latched := range []bool{false, true} {
+		for _, public := range []bool{false, true} {
+			asked := 0
+			oracle := func(v ssa.Value) (AV, bool) {
+				if v == ssa.Value(fn.Params[0]) {
+					return AV{Kind: "nonnil", Sym: "alloc:recv"}, true
+				}
+				if v == sym {
+					return AV{Kind: "sym", Sym: "symbol"}, true
+				}
+				if call, isCall := v.(*ssa.Call); isCall && isPublicTest(call) {
+					asked++
+					return avBool(public), true
+				}
+				if u, isU := v.(*ssa.UnOp); isU && u.Op == token.MUL {
+					if ff, base := loadedField(u); base == ssa.Value(fn.Params[0]) {
+						if sameVar(ff, vsh.flagFld) {
+							return avBool(latched), true
+						}
+						if sameVar(ff, vsh.nameFld) {
+							return AV{Kind: "sym", Sym: "oldname"}, true
+						}
+					}
+				}
+				return AV{}, false
+			}
+			_, mem, derr := DecideMem(fn, oracle)
+			if derr != "" {
+				decidedAll = false
+				continue
+			}
+			flag, wroteFlag := mem[fmt.Sprintf("arecv.f%d", flagIdx)]
+			name, wroteName := mem[fmt.Sprintf("arecv.f%d", nameIdx)]
+			isTrue := func(a AV) bool { return a.Kind == "const" && a.C.Kind() == constant.Bool && constant.BoolVal(a.C) }
+			switch {
+			case latched:
+				if (wroteFlag && !isTrue(flag)) || (wroteName && name.Sym != "oldname") {
+					good = false // the first offender is replaced, or the flag cleared
+				}
+			case public:
+				if wroteFlag && isTrue(flag) {
+					good = false
+				}
+			default:
+				if !wroteFlag || !isTrue(flag) || !wroteName || name.Sym != "symbol" || asked == 0 {
+					good = false
+				}
+			}
+		}
+	}
+	if !decidedAll {
+		c.Undecided("C20.VALIDATOR", "boltz.publicSymbolValidator.VisitSymbol: latch", p.Pos(fn.Pos()), "VisitSymbol could not be evaluated for every combination of (offender recorded, symbol public)")
+	} else {
+		c.Check(good, "C20.VALIDATOR", "boltz.publicSymbolValidator.VisitSymbol: latch", p.Pos(fn.Pos()),
+			"records an error exactly when IsPublicSymbol(symbol) is false, keeping the first error", "the validator does not record an error under !IsPublicSymbol(symbol) && err == nil")
+	}
+	// every path tests the symbol unless an offender is already recorded
+	fi := factsOf(fn)
+	early := !noPathAvoiding(fn, func(in ssa.Instruction) bool {
+		call, ok := in.(*ssa.Call)
+		return ok && isPublicTest(call)
+	}, func(from, to *ssa.BasicBlock) bool {
+		for ft := range fi.edgeFacts(from, to) {
+			if ft.Kind == "true" && ft.Pol {
+				if ff, _ := loadedField(ft.V); sameVar(ff, vsh.flagFld) {
+					return true
+				}
+			}
+		}
+		return false
+	})
+	c.Check(!early, "C20.VALIDATOR", "boltz.publicSymbolValidator.VisitSymbol: always tests", p.Pos(fn.Pos()), "every path tests IsPublicSymbol unless an error is already latched", "a path returns without testing the symbol although no error is latched")
+	// driver: walk first; nil exactly when the flag is clear
+	drv := vsh.drv
+	dfi := factsOf(drv)
+	okDrv, why := true, ""
+	ri := reachWithout(drv, func(in ssa.Instruction) bool { return in == ssa.Instruction(vsh.accept) })
+	for _, r := range returnsOf(drv) {
+		if ri.Reaches(r) {
+			okDrv, why = false, "a return is reachable without traversing the query"
+		}
+		flagSet := dfi.HoldsWhere(r.Block(), func(f Fact) bool {
+			g, base := loadedField(f.V)
+			return f.Kind == "true" && f.Pol && sameVar(g, vsh.flagFld) && base == vsh.obj
+		})
+		flagClear := dfi.HoldsWhere(r.Block(), func(f Fact) bool {
+			g, base := loadedField(f.V)
+			return f.Kind == "true" && !f.Pol && sameVar(g, vsh.flagFld) && base == vsh.obj
+		})
+		switch {
+		case isNilConst(r.Results[0]):
+			if !flagClear {
+				okDrv, why = false, "the driver can report success although the validator recorded an offender"
+			}
+		default:
+			if !flagSet {
+				okDrv, why = false, "the result is not the validator's latched error"
+			}
+		}
+	}
+	c.Check(okDrv, "C20.VALIDATOR", "boltz.ValidateSymbolsArePublic", p.Pos(drv.Pos()), "traverses the query with the validator and returns its latched error", why)
+	ruleC20IsPublicSymbol(c)
+	c.Floor("C20.VALIDATOR", 5)
 }
